@@ -45,6 +45,7 @@ extern std::function<void()> thread_exit_hook;
 
 // a harness-level schedule point (does not count as progress)
 void yield_point();
+bool self_is_daemon();         // the calling thread is a logical thread created by the code under test (a worker)
 int  self_id();               // id of the calling logical thread, -1 if not logical
 int  num_blocked();           // number of logical threads blocked in an emulated futex wait
 bool is_blocked(int t);
